@@ -138,7 +138,7 @@ def run_job(unit, job, cpath, outdir, tier, extra_defines=()):
     jname = job['name']
     a_gb = os.path.join(outdir, jname + '.a.gb')
     b_gb = os.path.join(outdir, jname + '.b.gb')
-    timeout = job.get('timeout', 120 if tier == 'quick' else 900)
+    timeout = job.get('timeout', 900 if tier == 'quick' else 3600)
     defines = list(unit.get('defines', [])) + list(job.get('defines', [])) + list(extra_defines)
     # witness clauses (replay support): WITNESS(fn, cond) in spec.h is a requires clause of
     # fn only in the job that enforces fn; elsewhere it expands to nothing.
@@ -181,7 +181,7 @@ def run_job(unit, job, cpath, outdir, tier, extra_defines=()):
         return res
     flags = list(job.get('flags', unit.get('flags', DEFAULT_FLAGS)))
     flags += job.get('extra_flags', [])
-    if job.get('unwind'):
+    if job.get('unwind') and not isinstance(job['unwind'], str):
         uw = job['unwind'][tier] if isinstance(job['unwind'], dict) else job['unwind']
         flags += ['--unwind', str(uw)]
     for us in job.get('unwindset', []):
@@ -399,7 +399,7 @@ def check_property(prop, tier, repo, seed=0, only_units=None, verbose=True, writ
         except Exception as e:  # parse bugs must never look like a violation
             built[key] = (None, None, outdir, 'extraction crashed: %r' % e)
     results = []
-    with concurrent.futures.ThreadPoolExecutor(max_workers=int(os.environ.get('VERIF_JOBS', '16'))) as ex:
+    with concurrent.futures.ThreadPoolExecutor(max_workers=int(os.environ.get('VERIF_JOBS', '12'))) as ex:
         futs = []
         for unit, job in sel:
             key = unit['name'] + variant_key(job.get('variant'))
